@@ -191,7 +191,7 @@ macro_rules! ks_backend {
                         scr_call::<BE, _>(exact, decl, f ^ 24, op, &mut scr_log, |s| m.gglwe_keyswitch_assign(&mut a, &ksk_p, s));
                         out.res = json!({"rank": -3, "rows": rows(&a, dnum_a)});
                     }
-                } else if op.starts_with("auto") || op.starts_with("trace") || op == "pack" {
+                } else if op.starts_with("auto") || op.starts_with("trace") || op == "pack" || op == "packer" {
                     // one secret of rank r; automorphism keys for the Galois elements the operation needs
                     let r_ = rin;
                     let mut sk = GLWESecret::alloc(Degree(n as u32), Rank(r_));
@@ -203,6 +203,8 @@ macro_rules! ks_backend {
                         vec![c["p"].as_i64().unwrap()]
                     } else if op == "pack" {
                         m.glwe_pack_galois_elements()
+                    } else if op == "packer" {
+                        poulpy_core::glwe_packer_galois_elements(m)
                     } else {
                         m.glwe_trace_galois_elements()
                     };
@@ -221,7 +223,37 @@ macro_rules! ks_backend {
                     }
                     let mut res = GLWE::alloc(Degree(n as u32), Base2K(bout), TorusPrecision(sout * bout), Rank(r_));
                     Rng::new(f ^ 31).fill(res.data_mut().data.as_mut());
-                    if op == "pack" {
+                    if op == "packer" {
+                        // streaming packer: rounds of N / 2^log_batch adds (Some / None by the presence pattern), each ended by a flush
+                        let lb = gu(c, "log_batch", 0) as usize;
+                        let rounds: Vec<Vec<u64>> = c["rounds"].as_array().unwrap().iter().map(|r| r.as_array().unwrap().iter().map(|v| v.as_u64().unwrap()).collect()).collect();
+                        let acc_infos = GLWELayout { n: Degree(n as u32), base2k: Base2K(bin), k: TorusPrecision(kin), rank: Rank(r_) };
+                        let mut packer = poulpy_core::GLWEPacker::alloc(&acc_infos, lb);
+                        let infos = keys.automorphism_key_infos();
+                        let decl = poulpy_core::glwe_packer_tmp_bytes(m, &acc_infos, &infos);
+                        let mut ins_log: Vec<Value> = vec![];
+                        let mut outs_log: Vec<Value> = vec![];
+                        for (ri, pat) in rounds.iter().enumerate() {
+                            let mut round_in: Vec<Value> = vec![];
+                            for (j, &present) in pat.iter().enumerate() {
+                                if present == 1 {
+                                    let ct = fresh_glwe!(&sk, r_, 100 * ri + j + 1, &mut scr_log);
+                                    round_in.push(dump_glwe(&ct));
+                                    scr_call::<BE, _>(exact, decl, f ^ 24, "glwe_packer_add", &mut scr_log, |s| poulpy_core::glwe_packer_add(m, &mut packer, Some(&ct), &keys, s));
+                                } else {
+                                    round_in.push(json!({"rank": -9}));
+                                    scr_call::<BE, _>(exact, decl, f ^ 24, "glwe_packer_add", &mut scr_log, |s| poulpy_core::glwe_packer_add(m, &mut packer, None::<&GLWE<Vec<u8>>>, &keys, s));
+                                }
+                            }
+                            let mut r2 = GLWE::alloc(Degree(n as u32), Base2K(bout), TorusPrecision(sout * bout), Rank(r_));
+                            Rng::new(f ^ 31 ^ ri as u64).fill(r2.data_mut().data.as_mut());
+                            scr_call::<BE, _>(exact, decl, f ^ 25, "glwe_packer_flush", &mut scr_log, |s| poulpy_core::glwe_packer_flush(m, &mut packer, &mut r2, s));
+                            ins_log.push(json!(round_in));
+                            outs_log.push(dump_glwe(&r2));
+                        }
+                        out.input = json!({"rank": -5, "rounds": ins_log});
+                        out.res = json!({"rank": -5, "rounds": outs_log});
+                    } else if op == "pack" {
                         let slots: Vec<usize> = c["slots"].as_array().unwrap().iter().map(|v| v.as_u64().unwrap() as usize).collect();
                         let gap = gu(c, "gap", 0) as usize;
                         let mut cts: Vec<GLWE<Vec<u8>>> = slots.iter().map(|&j| fresh_glwe!(&sk, r_, j + 1, &mut scr_log)).collect();
